@@ -80,7 +80,7 @@ def gen_plan(rng, tier, index):
             'k_rdm': rng.randint(1, 6), 'k_pattern': rng.randint(1, 6), 'k': rng.randint(1, 5),
             'n_rdm': rng.randint(0, 4), 'n_pattern': rng.randint(0, 5), 'n_cv': rng.randint(1, 4),
             'use_default_k': rng.chance(0.15),
-            'prehistory': rng.pick([None, None, None, 'subset_reorder', 'subsample_sort', 'item_reorder', 'subset_pattern_sort']) if mode == 'A' else None,
+            'prehistory': rng.pick([None, None, None, 'subset_reorder', 'subsample_sort', 'item_reorder', 'subset_pattern_sort', 'self_fold_sort', 'self_fold_sort']) if mode == 'A' else None,
             'faults': {'rate': rng.pick([0.0, 0.3, 0.6]),
                        'kinds': rng.subset(SHUFFLE_FAULTS + ['all_same', 'two_unique', 'perm', 'identity'], 0.3, 1.0)}}
     if mode == 'B':
@@ -416,6 +416,18 @@ def _prehistory(plan, src):
         elif ph == 'subsample_sort':
             child = src.subsample('uid', ru[:1] + ru)
             child.sort_by(uid='alpha')
+        elif ph == 'self_fold_sort':
+            # the data object itself was folded before and then sorted in place by another descriptor (documented in-place
+            # operation on the object the folds are made from: its labels move with its values)
+            from rsatoolbox.inference import sets_k_fold_pattern, sets_leave_one_out_rdm
+            try:
+                sets_k_fold_pattern(src, pattern_descriptor='index', k=2, random=False)
+                src.subset_pattern('index', [0, 1])
+                src.subset('index', [0])
+            except Exception:
+                pass
+            src.sort_by(uid='alpha')
+            return
         elif ph == 'item_reorder':
             child = src[0]
             child.reorder(list(range(1, child.n_cond)) + [0])
